@@ -833,6 +833,63 @@ Proof.
   eapply Forall_impl; [|exact F]. intros x (X & _). exact X.
 Qed.
 
+(* ---- no undecodable report ---- *)
+(* A garbled report is a worker failure as far as the controller is concerned: the receiver
+   thread writes the worker off (shutdown, errordown, crash report for the head of its book,
+   replacement), although the worker lives on and keeps running what it was given.  A run
+   "without worker failure" therefore also excludes garbled reports. *)
+Definition no_garbled (c : config) : Prop :=
+  forall n i, ~ In Garbled (reports_of (c_oracle c n) i).
+
+(* the protocol script of the running test holds no garbled report *)
+Definition nogarb (w : wst) : Prop :=
+  match wph w with PRun _ _ sc => Forall (fun e => is_garbled e = false) sc | _ => True end.
+
+Lemma nogarb_ph a b : wph a = wph b -> nogarb b -> nogarb a.
+Proof. unfold nogarb. intros ->. auto. Qed.
+
+Lemma script_of_nogarb o i :
+  ~ In Garbled (reports_of o i) -> Forall (fun e => is_garbled e = false) (tl (script_of o i)).
+Proof.
+  intros Hn. unfold script_of. cbn [app tl]. apply Forall_app. split; [|repeat constructor].
+  apply Forall_forall. intros e Hin. apply in_map_iff in Hin. destruct Hin as ([k oc] & <- & Hp).
+  apply in_combine_r in Hp. cbn [fst snd is_garbled]. destruct oc; try reflexivity. contradiction.
+Qed.
+
+Lemma main_step_nogarb o w w' evs :
+  (forall i, ~ In Garbled (reports_of o i)) -> main_step o w = Some (w', evs) -> nogarb w ->
+  nogarb w' /\ Forall (fun e => is_garbled e = false) evs.
+Proof.
+  intros Ho. unfold main_step, nogarb.
+  destruct (wph w) as [|rest| | |cur|cur nxt|cur nxt script|s|] eqn:P; intros H NG.
+  - inversion H; subst. cbn. split; [exact I|repeat constructor].
+  - destruct rest as [|[k f] rest]; inversion H; subst; cbn; (split; [exact I|repeat constructor]).
+  - inversion H; subst. cbn. split; [exact I|repeat constructor].
+  - destruct (wq w) as [|[t [i|]] q'].
+    + destruct (wcb w); [discriminate|]. inversion H; subst. cbn. rewrite P. split; [exact I|constructor].
+    + inversion H; subst. cbn. split; [exact I|constructor].
+    + inversion H; subst. cbn. split; [exact I|constructor].
+  - destruct (wq w) as [|nxt q']; [discriminate|]. inversion H; subst. cbn. split; [exact I|constructor].
+  - inversion H; subst. cbn. split; [apply script_of_nogarb; apply Ho|repeat constructor].
+  - destruct script as [|e script].
+    + inversion H; subst. cbn. split; [|repeat constructor].
+      destruct (stops_after o (snd cur)); [exact I|]. destruct (snd nxt); exact I.
+    + inversion H; subst. cbn. inversion NG as [|e' sc' Fe Fs]; subst. split; [exact Fs|]. repeat constructor. exact Fe.
+  - inversion H; subst. cbn. split; [exact I|repeat constructor].
+  - discriminate.
+Qed.
+
+Lemma recv_step_nogarb o w w' evs :
+  recv_step o w = (w', evs) -> nogarb w -> nogarb w' /\ Forall (fun e => is_garbled e = false) evs.
+Proof.
+  intros H NG. destruct (recv_step_facts _ _ _ _ H) as (P & E). split; [eapply nogarb_ph; eauto|].
+  destruct E as [->|(ixs & ->)]; repeat constructor.
+Qed.
+
+(* what a worker that sends no garbled report puts on its wire *)
+Lemma up_of_wevent_not_bad c n e : is_garbled e = false -> up_of_wevent c n e <> UBad.
+Proof. destruct e; try discriminate. destruct oc; discriminate. Qed.
+
 (* ---- the controller's receiver thread ---- *)
 (* messages a live worker puts on its wire (non-empty test ids) *)
 Definition ok_up (m : upmsg) : Prop :=
@@ -875,6 +932,11 @@ Proof.
       apply LI_set_nt; [exact I|]. rewrite Hnt. apply all_open_aset; [apply I|].
       cbn. rewrite Hnt in Ef. destruct I as (I1 & _). exact (I1 _ _ Ef).
     - intros evs E'. inversion E'; subst. exact Hx. }
+  destruct (n_down f) eqn:Edn.
+  { (* a node that is down is not heard any more *)
+    assert (H' : (d, @nil out, Ok (@nil cevent)) = (d', o, r)).
+    { destruct m as [e|ids|sk|i ms|dec| | |]; exact H. }
+    eapply SAME; [exact H'|]. intros evs E. inversion E; subst. constructor. }
   destruct m as [e|ids|sk|i ms|dec| | |]; cbn [ok_up] in Hm; try contradiction.
   - destruct e; unfold put in H; cbn beta iota zeta in H;
       try (eapply SAME; [exact H|]; intros evs E; inversion E; subst; repeat constructor; fail).
@@ -928,10 +990,11 @@ Record SInv (s : sys) : Prop := {
   si_up : forall n, Forall ok_up (alist_get [] n (y_up s));
   si_down : forall n, Forall good_cmd (alist_get [] n (y_down s));
   si_w : forall n w, aget n (y_w s) = Some w -> WInv w /\ Forall good_cmd (winbox w);
+  si_ng : forall n w, aget n (y_w s) = Some w -> nogarb w;
 }.
 
 Lemma SInv_set_result s r : SInv s -> SInv (set_result s r).
-Proof. intros [A B C D E F G]. constructor; assumption. Qed.
+Proof. intros [A B C D E F G NG]. constructor; assumption. Qed.
 
 Lemma wires_pointwise s s' :
   akeys (y_w s') = akeys (y_w s) ->
@@ -946,10 +1009,11 @@ Proof. intros H. unfold alist_get. rewrite H. reflexivity. Qed.
 Lemma worker_step_inv c s n w w' evs :
   (forall k, ~ In ""%string (c_coll c k)) ->
   SInv s -> aget n (y_w s) = Some w -> WInv w' -> Forall good_cmd (winbox w') ->
+  nogarb w' -> Forall (fun e => is_garbled e = false) evs ->
   Permutation (w_tokens w') (w_tokens w) ->
   SInv (push_up (set_w s n w') n (map (up_of_wevent c n) evs)).
 Proof.
-  intros Hne [A B (ls & Els & I & T) D E F G] Ew Iw Gw Pw.
+  intros Hne [A B (ls & Els & I & T) D E F G NG] Ew Iw Gw NGw NGe Pw.
   assert (Ek : akeys (aset n w' (y_w s)) = akeys (y_w s)).
   { apply akeys_aset_in. eapply aget_some_in; eauto. }
   constructor; cbn [push_up set_w y_dead y_w y_d y_evq y_up y_down].
@@ -964,13 +1028,17 @@ Proof.
   - exact D.
   - intros k. destruct (Nat.eq_dec k n) as [->|Hk].
     + rewrite alist_get_aset_eq. apply Forall_app. split; [apply E|].
-      apply Forall_forall. intros m Hm. apply in_map_iff in Hm. destruct Hm as (e & <- & _).
-      destruct e; cbn; auto.
+      apply Forall_forall. intros m Hm. apply in_map_iff in Hm. destruct Hm as (e & <- & He).
+      rewrite Forall_forall in NGe. specialize (NGe e He).
+      destruct e; cbn; auto. destruct oc; cbn; auto. discriminate.
     + rewrite alist_get_aset_neq by exact Hk. apply E.
   - exact F.
   - intros k wk. destruct (Nat.eq_dec k n) as [->|Hk].
     + rewrite aget_aset_eq. intros X. inversion X; subst. auto.
     + rewrite aget_aset_neq by exact Hk. apply G.
+  - intros k wk. destruct (Nat.eq_dec k n) as [->|Hk].
+    + rewrite aget_aset_eq. intros X. inversion X; subst. exact NGw.
+    + rewrite aget_aset_neq by exact Hk. apply NG.
 Qed.
 
 (* ---- applying the controller's outputs ---- *)
@@ -1045,11 +1113,11 @@ Proof. intros E1 E2. unfold wires, node_tokens. rewrite E1, E2. reflexivity. Qed
 Ltac fin3 H a b c := injection H as Hs_ Ho_ Hw_; subst a b c.
 
 Lemma step_sinv c s l s' o w :
-  (forall n i, c_crash_in c n i = false) -> (forall k, ~ In ""%string (c_coll c k)) ->
+  (forall n i, c_crash_in c n i = false) -> no_garbled c -> (forall k, ~ In ""%string (c_coll c k)) ->
   no_crash_label l -> SInv s -> sys_step c s l = Some (s', o, w) ->
   SInv s' \/ (y_w s' = y_w s /\ Errd s').
 Proof.
-  intros Hnc Hne Hl Inv H. pose proof Inv as [A B (ls & Els & I & T) D E F G].
+  intros Hnc Hng Hne Hl Inv H. pose proof Inv as [A B (ls & Els & I & T) D E F G NG].
   unfold sys_step in H. destruct (y_result s) eqn:Er; [discriminate|].
   destruct l as [n0|n0|n0|n0| |n0]; [| | | | |contradiction].
   - (* LDeliver *)
@@ -1081,6 +1149,9 @@ Proof.
       * rewrite aget_aset_eq. intros X. inversion X; subst. split; [apply upd_recv_inv; exact Iw|].
         apply deliver_good; assumption.
       * rewrite aget_aset_neq by exact Hk. apply G.
+    + intros k wk. destruct (Nat.eq_dec k n0) as [->|Hk].
+      * rewrite aget_aset_eq. intros X. inversion X; subst. apply (nogarb_ph _ w0); [reflexivity|]. exact (NG _ _ Ew).
+      * rewrite aget_aset_neq by exact Hk. apply NG.
   - (* LRecvW *)
     replace (mem_nat n0 (y_dead s)) with false in H by (rewrite A; reflexivity).
     destruct (aget n0 (y_w s)) as [w0|] eqn:Ew; try discriminate.
@@ -1089,6 +1160,7 @@ Proof.
     destruct (G _ _ Ew) as (Iw & Gw).
     pose proof (recv_step_tokens (c_oracle c n0) w0 Gw) as (P & Gw').
     pose proof (recv_step_inv (c_oracle c n0) w0 Iw) as Iw'. rewrite Es in P, Gw', Iw'. cbn [fst] in *.
+    destruct (recv_step_nogarb _ _ _ _ Es (NG _ _ Ew)) as (NGw & NGe).
     eapply worker_step_inv; eauto.
   - (* LMain *)
     replace (mem_nat n0 (y_dead s)) with false in H by (rewrite A; reflexivity).
@@ -1099,6 +1171,7 @@ Proof.
     destruct (main_step (c_oracle c n0) w0) as [[w' evs]|] eqn:Es; [|discriminate]. fin3 H s' o w. left.
     destruct (G _ _ Ew) as (Iw & Gw).
     destruct (main_step_tokens _ _ _ _ Es) as (P & Ei).
+    destruct (main_step_nogarb _ _ _ _ (Hng n0) Es (NG _ _ Ew)) as (NGw & NGe).
     eapply worker_step_inv; eauto.
     + eapply main_step_inv; eauto.
     + rewrite Ei. exact Gw.
@@ -1127,6 +1200,7 @@ Proof.
         -- rewrite alist_get_aset_neq by exact Hk. apply E.
       * exact F.
       * exact G.
+      * exact NG.
     + fin3 H s' o w. right. split; [reflexivity|]. exists e. reflexivity.
   - (* LCtl *)
     destruct (d_active (y_d s)) as [|a0 ar] eqn:Ea.
@@ -1153,7 +1227,8 @@ Proof.
         - rewrite A2. exact Gq.
         - intros k. rewrite A3. apply E.
         - apply A6. exact F.
-        - intros k wk. rewrite A4. apply G. }
+        - intros k wk. rewrite A4. apply G.
+        - intros k wk. rewrite A4. apply NG. }
       destruct (d_session_finished d'); [fin3 H s' o w; left; apply SInv_set_result; exact S1|].
       destruct (d_active d') as [|b0 br] eqn:Ea'.
       * destruct (d_no_active d') as [[d2 outs2] r2] eqn:En. fin3 H s' o w. right.
@@ -1201,6 +1276,7 @@ Proof.
   - intros n. cbn [sys_init y_down]. rewrite alist_get_map_nil. constructor.
   - intros n w E. cbn [sys_init y_w] in E. apply aget_map_const in E. subst w.
     split; [apply winv_init|constructor].
+  - intros n w E. cbn [sys_init y_w] in E. apply aget_map_const in E. subst w. exact I.
 Qed.
 
 (* ---- every schedule ---- *)
@@ -1213,22 +1289,23 @@ Definition step_of (c : config) (s : sys) (l : label) : sys :=
   match sys_step c s l with Some (s', _, _) => s' | None => s end.
 
 Lemma good_step c s l :
-  (forall n i, c_crash_in c n i = false) -> (forall k, ~ In ""%string (c_coll c k)) ->
+  (forall n i, c_crash_in c n i = false) -> no_garbled c -> (forall k, ~ In ""%string (c_coll c k)) ->
   no_crash_label l -> Good s -> Good (step_of c s l).
 Proof.
-  intros Hnc Hne Hl Hg. unfold step_of.
+  intros Hnc Hng Hne Hl Hg. unfold step_of.
   destruct (sys_step c s l) as [[[s' o] w]|] eqn:E; [|exact Hg].
   destruct Hg as [Inv|(s0 & _ & _ & (e & Er))].
-  - destruct (step_sinv _ _ _ _ _ _ Hnc Hne Hl Inv E) as [Inv'|(Ew & Ee)]; [left; exact Inv'|].
+  - destruct (step_sinv _ _ _ _ _ _ Hnc Hng Hne Hl Inv E) as [Inv'|(Ew & Ee)]; [left; exact Inv'|].
     right. exists s. auto.
   - unfold sys_step in E. rewrite Er in E. discriminate.
 Qed.
 
 Lemma good_run c ls :
-  c_mode c = MLoad -> (forall n i, c_crash_in c n i = false) -> (forall k, ~ In ""%string (c_coll c k)) ->
+  c_mode c = MLoad -> (forall n i, c_crash_in c n i = false) -> no_garbled c ->
+  (forall k, ~ In ""%string (c_coll c k)) ->
   Forall no_crash_label ls -> Good (sys_run c ls).
 Proof.
-  intros Hm Hnc Hne Hls. unfold sys_run.
+  intros Hm Hnc Hng Hne Hls. unfold sys_run.
   assert (G : forall s, Good s -> Good (fold_left (step_of c) ls s)).
   { induction Hls as [|l ls Hl Hls IH]; intros s Hg; cbn [fold_left]; [exact Hg|].
     apply IH. apply good_step; assumption. }
@@ -1257,7 +1334,7 @@ Proof. intros ND. unfold started. symmetry. apply (flat_map_keys_vals (fun w => 
 
 Lemma started_sub_wires s : SInv s -> sub (started s) (wires s).
 Proof.
-  intros [A B C D E F G]. rewrite (started_keys s B). unfold wires. apply sub_flat_map.
+  intros [A B C D E F G NG]. rewrite (started_keys s B). unfold wires. apply sub_flat_map.
   intros k _. unfold node_tokens. destruct (aget k (y_w s)) as [w|] eqn:Ew; [|exists (flat_map cmd_inds (alist_get [] k (y_down s)) ++ []); reflexivity].
   destruct (G _ _ Ew) as (Iw & _). destruct (started_prefix_popped w Iw) as (more & Em).
   unfold w_tokens. rewrite Em.
@@ -1268,7 +1345,7 @@ Qed.
 
 Lemma sinv_places_nodup s : SInv s -> NoDup (places s).
 Proof.
-  intros [A B (ls & Els & I & (T1 & _)) D E F G]. rewrite places_eq. unfold pool. rewrite Els. exact T1.
+  intros [A B (ls & Els & I & (T1 & _)) D E F G NG]. rewrite places_eq. unfold pool. rewrite Els. exact T1.
 Qed.
 
 Lemma sinv_started_nodup s : SInv s -> NoDup (started s).
@@ -1286,6 +1363,12 @@ Proof. intros E. unfold started. rewrite E. reflexivity. Qed.
 (*                                                                                          *)
 (* Hypotheses, beyond those asked for (load mode, c_crash_in constantly false, no LCrash     *)
 (* label in the schedule):                                                                  *)
+(*  (H-garbled) no worker sends an undecodable report: no_garbled c, i.e.                    *)
+(*        forall n i, ~ In Garbled (reports_of (c_oracle c n) i).                            *)
+(*     Reason: an undecodable message makes the receiver thread write the worker off         *)
+(*     (shutdown, errordown, crash report, replacement) -- a worker failure as far as the     *)
+(*     controller is concerned, although the worker lives on and goes on running its book,    *)
+(*     part of which the controller hands to other workers again.                             *)
 (*  (H-ids) no worker collects a test with the EMPTY node id:                               *)
 (*        forall n, ~ In "" (c_coll c n).                                                   *)
 (*     Reason: on workerfinished DSession does  crashitem = sched.remove_node(node);        *)
@@ -1307,6 +1390,7 @@ Section C01.
   Variable ls : list label.
   Hypothesis Hmode : c_mode c = MLoad.
   Hypothesis Hnocrash : forall n i, c_crash_in c n i = false.
+  Hypothesis Hnogarbled : no_garbled c.
   Hypothesis Hids : forall n, ~ In ""%string (c_coll c n).
   Hypothesis Hsched : Forall no_crash_label ls.
 
@@ -1342,7 +1426,7 @@ Section C01.
     intros i Hi.
     assert (W : forall n w, In (n, w) (y_w (sys_run c ls)) -> WInv w).
     { assert (X : forall s, SInv s -> forall n w, In (n, w) (y_w s) -> WInv w).
-      { intros s [A B C D E F G] n w Hin. apply (G n w).
+      { intros s [A B C D E F G NG] n w Hin. apply (G n w).
         clear -B Hin. induction (y_w s) as [|[k v] m IH]; [destruct Hin|].
         cbn [akeys map fst] in B. inversion B as [|k' l' Hn ND']; subst. cbn [aget].
         destruct Hin as [Ein|Hin].
@@ -1366,7 +1450,7 @@ Section C01.
   Proof.
     intros Hne i Hi. pose proof (run_sinv Hne) as Inv.
     pose proof (sub_in _ _ _ (started_sub_wires _ Inv) Hi) as Hw.
-    destruct Inv as [A B (lst & Els & I & (T1 & T2 & T3)) D E F G].
+    destruct Inv as [A B (lst & Els & I & (T1 & T2 & T3)) D E F G NG].
     exists lst. destruct (l_coll lst) as [coll|] eqn:Ec.
     - exists coll. split; [exact Els|]. split; [reflexivity|].
       apply (T3 coll eq_refl). apply in_or_app. right. exact Hw.
@@ -1454,6 +1538,8 @@ Proof.
   assert (H3 : forall n, ~ In ""%string (c_coll c01_cfg n)).
   { intros n H. cbn in H. repeat (destruct H as [H|H]; [discriminate|]). exact H. }
   assert (H4 : Forall no_crash_label c01_sched_refill) by (vm_compute; repeat constructor).
+  assert (H5 : no_garbled c01_cfg).
+  { intros n i H. cbn in H. destruct H as [H|[]]. discriminate. }
   split.
   - apply c01_places_nodup; auto. intros e He. vm_compute in He. discriminate.
   - apply c01_started_at_most_once; auto.
